@@ -133,8 +133,8 @@ PROBES = {
     "list_lengths": lambda f: [int(v) for v in f["n"].array.list_lengths],
     "count_nested": lambda f: frame_view(__import__("nested_pandas").utils.count_nested(f, "n")),
     "nested_columns": lambda f: list(f.nested_columns),
-    "column_labels": lambda f: [str(f[c].name) for c in f.columns] + [str(c) for c in f["mixed"].to_frame().columns]
-                               + [str(c) for c in f.reset_index().columns],
+    # (looks at the column objects only: anything that copies the frame would clear pandas' item cache)
+    "column_labels": lambda f: [str(f[c].name) for c in f.columns] + [str(c) for c in f["mixed"].to_frame().columns],
     "fields": lambda f: [list(f[c].nest.fields) for c in f.nested_columns] + [str(f[c].dtype) for c in f.nested_columns],
     "query_st": lambda f: frame_view(f.query("st.p > 1")),
     "getitem_st": lambda f: flat_vals(f["st.q"]),
@@ -167,7 +167,7 @@ def run_history(ctx, names):
         obj, ref = (nf, fresh) if who == "same" else (nf.copy(), fresh.copy())
         # probes that only LOOK at the object come first (some later probes copy the frame internally, and pandas'
         # copy() clears the item cache of its source — which would repair state left there before it is looked at)
-        first = ["column_labels", "fields", "nest_series_index", "flat_index", "aliases_attr", "ok_isna", "list_lengths", "nested_columns", "data", "all_columns"]
+        first = ["nest_series_index", "flat_index", "column_labels", "fields", "aliases_attr", "ok_isna", "list_lengths", "nested_columns", "data", "all_columns"]
         order = first + [k for k in PROBES if k not in first]
         for pn in order:
             pf = PROBES[pn]
